@@ -8,6 +8,7 @@ import (
 	"strings"
 	"sync"
 	"time"
+	"tkestack.io/kvass/pkg/prom"
 
 	"kvassverif/internal/core"
 )
@@ -125,7 +126,7 @@ func c12Cases(tier string) []c12Case {
 func runC12Parallel(w *core.WorkerCtx, k int) *core.CaseResult {
 	r := core.NewRng(w.Seed, 0xC12B, uint64(k))
 	res := &core.CaseResult{Sig: fmt.Sprintf("parallel-%d", k), Nontrivial: true}
-	rg, err := newRig(filepath.Join(w.Scratch, fmt.Sprintf("c12p-%d", k)), "10s", "")
+	rg, err := newRig(filepath.Join(w.Scratch, fmt.Sprintf("c12p-%d", k)), rigLongTimeout, "")
 	if err != nil {
 		res.Inconcl = "rig: " + err.Error()
 		return res
@@ -227,6 +228,62 @@ func runC12Parallel(w *core.WorkerCtx, k int) *core.CaseResult {
 			}
 		}
 	}
+	// the administrative stop is set / lifted while a scrape is in flight (target gated by the harness): the
+	// attempt may fail (C13 judges failures), but a complete 200 response must carry the target's bytes
+	for i, kind := range []string{"stop-cleared-inflight", "stop-set-inflight"} {
+		h := hs[i]
+		setStop := func(reason string) error {
+			_, _, err := rg.in.Call("POST", "/api/v1/status/extra_config/", &prom.ExtraConfig{StopScrapeReason: reason}, nil)
+			rg.hookClients()
+			return err
+		}
+		first, second := "admin stop", ""
+		if kind == "stop-set-inflight" {
+			first, second = "", "admin stop"
+		}
+		if err := setStop(first); err != nil {
+			res.Inconcl = "extra config: " + err.Error()
+			return res
+		}
+		gate, entered := make(chan struct{}), make(chan struct{})
+		rg.mt.set(fmt.Sprintf("t%d.example:9100", h), &bodyScript{Body: bodies[h], Gzip: i == 0, ContentType: "text/plain; version=0.0.4", Gate: gate, Entered: entered})
+		rw := newRec(0)
+		aborted := false
+		done := make(chan struct{})
+		go func() {
+			defer close(done)
+			defer func() {
+				if recover() != nil {
+					aborted = true
+				}
+			}()
+			rg.in.Proxy.ServeHTTP(rw, httptest.NewRequest("GET", proxyURLFor("j1", h), nil))
+		}()
+		select {
+		case <-entered:
+		case <-time.After(60 * time.Second):
+			close(gate)
+			<-done
+			res.Inconcl = "gated request was not made within 60 s"
+			return res
+		}
+		err := setStop(second)
+		close(gate)
+		<-done
+		_ = setStop("")
+		if err != nil {
+			res.Inconcl = "extra config: " + err.Error()
+			return res
+		}
+		res.Execs++
+		res.AddStat("scrapes_with_stop_reason_changed_in_flight", 1)
+		if !aborted && (rw.status == 0 || rw.status == 200) {
+			res.AddStat("of_those_complete_200", 1)
+			if got := rw.body(); !bytes.Equal(got, bodies[h]) {
+				bads = append(bads, fmt.Sprintf("%s target %d: complete 200 response with %d bytes, the target served %d bytes", kind, h, len(got), len(bodies[h])))
+			}
+		}
+	}
 	res.AddStat("parallel_scrapes", int64(rounds*n))
 	if len(bads) > 0 {
 		res.Violate("C12/not-identical/concurrent-scrapes", "%d of %d concurrent scrapes differ, e.g. %s", len(bads), rounds*n, bads[0])
@@ -246,7 +303,7 @@ func runC12(w *core.WorkerCtx, idx int) *core.CaseResult {
 	r := core.NewRng(w.Seed, 0xC12, uint64(idx))
 	res := &core.CaseResult{Sig: fmt.Sprintf("%s|gz%v|%s|asg%v|short%d|%s", c.Name, c.Gzip, c.Mode, c.Assigned, c.Short, c.Chunking), Nontrivial: true}
 	dir := filepath.Join(w.Scratch, fmt.Sprintf("c12-%d", idx))
-	rg, err := newRig(dir, "10s", "")
+	rg, err := newRig(dir, rigLongTimeout, "")
 	if err != nil {
 		res.Inconcl = "rig: " + err.Error()
 		return res
